@@ -769,3 +769,92 @@ def positional_calls_variant(sources: SourceSet) -> SourceSet:
 
 
 VARIANTS.update({"keyword-calls": keyword_calls, "positional-calls": positional_calls_variant})
+
+
+class _CompareFlip(ast.NodeTransformer):
+    """``a <= b`` -> ``b >= a``, ``a == b`` -> ``b == a``, ``x is None`` -> ``None is x`` (single comparisons of pure operands)."""
+
+    FLIP = {ast.Lt: ast.Gt, ast.Gt: ast.Lt, ast.LtE: ast.GtE, ast.GtE: ast.LtE, ast.Eq: ast.Eq, ast.NotEq: ast.NotEq, ast.Is: ast.Is, ast.IsNot: ast.IsNot}
+
+    @staticmethod
+    def _pure(e):
+        return not any(isinstance(n, (ast.Call, ast.NamedExpr, ast.Await, ast.Yield)) for n in ast.walk(e))
+
+    def visit_Compare(self, node):
+        self.generic_visit(node)
+        if len(node.ops) == 1 and type(node.ops[0]) in self.FLIP and self._pure(node.left) and self._pure(node.comparators[0]):
+            return ast.copy_location(ast.Compare(left=node.comparators[0], ops=[self.FLIP[type(node.ops[0])]()], comparators=[node.left]), node)
+        return node
+
+
+def compare_flip(sources: SourceSet) -> SourceSet:
+    out = {}
+    for rel, text in sources.files.items():
+        tree = _CompareFlip().visit(ast.parse(text))
+        ast.fix_missing_locations(tree)
+        out[rel] = ast.unparse(tree) + "\n"
+    return SourceSet(out, sources.root)
+
+
+class _DeMorgan(ast.NodeTransformer):
+    """In branch tests: ``a and b`` -> ``not (not a or not b)``; ``a or b`` -> ``not (not a and not b)`` (boolean contexts only)."""
+
+    def _neg(self, e):
+        if isinstance(e, ast.UnaryOp) and isinstance(e.op, ast.Not):
+            return e.operand
+        return ast.UnaryOp(op=ast.Not(), operand=e)
+
+    def _rewrite(self, test):
+        if isinstance(test, ast.BoolOp) and not any(isinstance(n, ast.NamedExpr) for n in ast.walk(test)):
+            other = ast.Or() if isinstance(test.op, ast.And) else ast.And()
+            return ast.UnaryOp(op=ast.Not(), operand=ast.BoolOp(op=other, values=[self._neg(v) for v in test.values]))
+        return test
+
+    def visit_If(self, node):
+        self.generic_visit(node)
+        node.test = self._rewrite(node.test)
+        return node
+
+    def visit_IfExp(self, node):
+        self.generic_visit(node)
+        node.test = self._rewrite(node.test)
+        return node
+
+
+def de_morgan(sources: SourceSet) -> SourceSet:
+    out = {}
+    for rel, text in sources.files.items():
+        tree = _DeMorgan().visit(ast.parse(text))
+        ast.fix_missing_locations(tree)
+        out[rel] = ast.unparse(tree) + "\n"
+    return SourceSet(out, sources.root)
+
+
+class _ElseAfterReturn(ast.NodeTransformer):
+    """``if c: ...return`` followed by statements  ->  ``if c: ... else: <those statements>`` (inverse of guard clauses)."""
+
+    def _block(self, stmts):
+        for i, s in enumerate(stmts):
+            if isinstance(s, ast.If) and not s.orelse and s.body and isinstance(s.body[-1], (ast.Return, ast.Raise)) and stmts[i + 1 :]:
+                rest = self._block(stmts[i + 1 :])
+                s.orelse = rest
+                return stmts[: i + 1]
+        return stmts
+
+    def visit_FunctionDef(self, node):
+        self.generic_visit(node)
+        if not any(isinstance(n, (ast.Yield, ast.YieldFrom)) for n in ast.walk(node)):
+            node.body = self._block(node.body)
+        return node
+
+
+def else_after_return(sources: SourceSet) -> SourceSet:
+    out = {}
+    for rel, text in sources.files.items():
+        tree = _ElseAfterReturn().visit(ast.parse(text))
+        ast.fix_missing_locations(tree)
+        out[rel] = ast.unparse(tree) + "\n"
+    return SourceSet(out, sources.root)
+
+
+VARIANTS.update({"compare-flip": compare_flip, "de-morgan": de_morgan, "else-after-return": else_after_return})
